@@ -5,18 +5,38 @@ import filter_functions as ff
 from filter_functions import superoperator as so
 
 from .. import gens
-from ..common import arr2bits, bits2arr, driver
+from ..common import arr2bits, bits2arr, corr_script, driver
 
 THEOREMS = ['swap_identity', 'complete_of_swap', 'liou_real', 'liou_one', 'liou_mul',
             'liou_transpose', 'liou_orthogonal', 'liouville_transfer', 'expand_entries',
             'expand_inverse', 'liouville_entries', 'liouville_castReal', 'choi_entries',
             'choi_of_unitary', 'choi_of_unitary_quadForm', 'choi_of_unitary_posSemidef',
             'transpose_choi_entries', 'transpose_not_cp', 'cp_verdict_of_nonneg',
-            'cp_verdict_false_of_neg']
+            'cp_verdict_false_of_neg'] + '''
+choiMatrix_model choiMatrix_entries_model isCPLiou_iff_model exists_isEigh cp_verdict_of_isCPLiou
+cp_verdict_default_atol cp_verdict_false_of_quadForm liouvilleOfKraus_entries liouvilleOfKraus_spec liouvilleOfKraus_castReal
+choiMatrix_of_kraus choi_of_kraus choi_of_kraus_isHermitian choi_of_kraus_posSemidef choi_of_kraus_posSemidef_model
+cp_verdict_of_kraus mixture_of_unitaries_cp negative_kraus_weight_quadForm negative_kraus_weight_not_cp negative_kraus_weight_verdict
+negative_kraus_weight_verdict_span kraus_of_choi_posSemidef cp_iff_kraus choiMatrix_inj cp_zero
+cp_liou cp_one cp_add cp_sum cp_smul_nonneg
+cp_smul_nonneg' cp_comp cp_pow cp_closed cp_of_tendsto
+cp_of_hasSum cp_exp_of_cp cp_exp_of_gen cp_exp_lindblad cp_convex
+liouvilleRepr_generic liouville_closed_form_eq_generic liouvilleRepr_ggm_entries liouville_stack_eq_map liou_cumL
+total_liouville_is_product total_liouville_eq_last_step cumulative_liouville_is_product'''.split()     # module C15CP: Kraus <-> Choi, CP cone, verdicts, closed-form path, total propagators
+LEAN_MODULES = ['FFVerif.Props.C15', 'FFVerif.Props.C15CP', 'FFVerif.Props.C09cCP']
+THEOREMS += [   # module C09cCP: Lindblad generators pass, non-Lindblad generators fail the cCP test
+    'FFVerif.C09.verdict_of_posSemidef', 'FFVerif.C09.verdict_false_of_eigenvalue', 'FFVerif.C09.choi_of_linear_map',
+    'FFVerif.C09.gks_generator_cCP', 'FFVerif.C09.lindblad_eq_gks', 'FFVerif.C09.lindblad_generator_cCP',
+    'FFVerif.C09.lindblad_cCP_verdict', 'FFVerif.C09.cumulant_first_order_cCP_verdict', 'FFVerif.C09.cCP_necessary_transition_rates',
+    'FFVerif.C09.negative_rate_not_cCP', 'FFVerif.C09.isEigvals_of_isEigh', 'FFVerif.C09.exists_eigenvalue_le_diag',
+    'FFVerif.C09.verdict_false_of_diag', 'FFVerif.C09.cCP_test_rejects_negative_rate']
 PINS = ['pinGgmExpand', 'C15_superop_source_shape']
 GEN_SITES = ['einsum:superoperator_liouville_representation_0',
              'einsum:superoperator_liouville_to_choi_0', 'const:superoperator']
 COMPONENTS = ['liouville', 'choi']
+CORR_SCRIPT_COMPONENTS = ['liouville_kraus', 'choi(kraus)', 'choi = sum w |A>><<A|', 'verdict', 'bound',
+                          'liouville_repr', 'stack = map', 'liouville_stack', 'total L = product of inputs',
+                          'concat_total_liouville', 'lindbladLiou']
 RULES = ['correspondence: liouville_representation / liouville_to_choi vs the Lean model on random '
          'unitaries and bases (Pauli, GGM, rotated, non-traceless), d in {2,3,4}; search: entries '
          'tr(C_i U C_j U†), realness, orthogonality, L(1)=1, multiplicativity, stacks, d=13 GGM '
@@ -24,8 +44,9 @@ RULES = ['correspondence: liouville_representation / liouville_to_choi vs the Le
          'channels, convex mixtures, Lindblad generators, transposition and negative-Kraus maps; '
          'distinct = input hash; non-trivial = non-diagonal unitary']
 ASSUMPTIONS = ['numpy.linalg.eigh on the Choi matrix returns its spectrum (validated on samples)']
-TRUSTED = ['oracle contract: eigh of the Choi matrix; the d>12 closed-form GGM expansion path is '
-           'validated by search only']
+TRUSTED = ['oracle contract: eigh of the Choi matrix; the comparison `basis == Basis.ggm(d)` that selects '
+           'the closed-form path is an input flag of the model (the path theorem is about the exact '
+           'Gell-Mann basis)']
 
 
 def bases(rng, d):
@@ -66,6 +87,10 @@ def correspondence(ctx):
     for k, v in bad.items():
         ctx.oblige('correspondence:' + k, 'correspondence', not v, f'{len(v)} disagree: {v[:3]}')
     ctx.sample({'line': lines[0][:120]})
+    # Kraus maps, both code paths of liouville_representation, stacks, total Liouville propagator of
+    # real concatenations, CP verdicts (model SuperopKraus, written with module C15CP)
+    corr_script(ctx, 'corr_c15cp', CORR_SCRIPT_COMPONENTS)
+    corr_script(ctx, 'corr_c09ccp', ['projq', 'projchoi', 'cpverdict', 'end-to-end verdict'])
 
 
 def check_liouville(ctx, case):
@@ -136,6 +161,24 @@ def check_cp(ctx, case):
         probs.append('Lindblad generator judged not cCP')
     if so.liouville_is_cCP(liou_gen([1.0, -0.8]), C):
         probs.append('generator with a negative rate judged cCP')
+    # stacks: the verdict for each member of a stack is the verdict for that member alone — also
+    # when the members differ by many orders of magnitude (one large map must not hide a small
+    # violation of another one), with the default tolerance and with an explicit one
+    big = 10.0**rng.uniform(3, 7)
+    small = 10.0**rng.uniform(-10, -8)
+    cp_stack = np.array([big*liou_of_kraus(Us[:1], [1.0]), liou_of_kraus(Us[:2], [1.0, -small]),
+                         liou_of_kraus(Us, w), liou_of_kraus(Us[:2], [1.5, -0.5])])
+    ccp_stack = np.array([big*liou_gen(g), liou_gen([1.0, -small]), liou_gen(g), liou_gen([1.0, -0.8])])
+    for fn, stack, name in ((so.liouville_is_CP, cp_stack, 'CP'), (so.liouville_is_cCP, ccp_stack, 'cCP')):
+        for atol in (None, 1e-12):
+            kw = {} if atol is None else {'atol': atol}
+            whole = np.asarray(fn(stack, C, **kw))
+            alone = np.array([bool(fn(m, C, **kw)) for m in stack])
+            if whole.shape != alone.shape or not np.array_equal(whole, alone):
+                probs.append(f'{name} verdicts of a stack {whole.tolist()} differ from the members '
+                             f'tested alone {alone.tolist()} (atol={atol}, scales {big:.1g} / {small:.1g})')
+            if atol is None and not (alone[0] and alone[2] and not alone[3]):
+                probs.append(f'{name} verdicts of the stack members wrong: {alone.tolist()}')
     ctx.count(('cp', d, case['seed'], case['basis']))
     if probs:
         ctx.fail('cp_verdicts', case, probs, 'mathematically correct verdict', {},
